@@ -37,7 +37,7 @@ func TestVerifC17(t *testing.T) {
 	defer yieldMode.Store(0)
 	rec.note("GODEBUG", os.Getenv("GODEBUG"))
 	rounds := env.pickN(40, 600)
-	patterns := []string{"past", "now", "equal-cluster", "increasing", "decreasing", "near-far", "random", "mixed"}
+	patterns := []string{"past", "now", "equal-cluster", "increasing", "decreasing", "near-far", "random", "waves", "mixed"}
 	var caseIdx int64
 	for r := 0; r < rounds; r++ {
 		idx := caseIdx
@@ -96,6 +96,19 @@ func TestVerifC17(t *testing.T) {
 							tk.far = true
 						} else {
 							tk.deadline = time.Now().Add(time.Duration(grng.intn(20000)) * time.Microsecond)
+						}
+					case "waves":
+						// a far-future task early on, then waves of near tasks submitted
+						// after earlier ones have fired (the worker's heap is drained
+						// only partly: the far task stays)
+						if i%16 == 0 {
+							tk.deadline = time.Now().Add(time.Hour + time.Duration(grng.intn(1000))*time.Second)
+							tk.far = true
+						} else {
+							if i%8 == 1 {
+								time.Sleep(time.Duration(5+grng.intn(25)) * time.Millisecond)
+							}
+							tk.deadline = time.Now().Add(time.Duration(1000+grng.intn(9000)) * time.Microsecond)
 						}
 					default:
 						tk.deadline = time.Now().Add(time.Duration(grng.intn(200000)-20000) * time.Microsecond)
